@@ -50,6 +50,9 @@ func (p *Program) verifyFunc(key string, mode string) (u *Unit) {
 		u.Kind = "sweep"
 		e.sweep = true
 	}
+	if mode == "nosafety" {
+		e.safety = false
+	}
 	if mode == "own" {
 		u.Kind = "own"
 		e.lockset = true
@@ -106,9 +109,24 @@ func (p *Program) verifyFunc(key string, mode string) (u *Unit) {
 	for _, fv := range fn.FreeVars {
 		bind(fv, fv.Name())
 	}
-	// preconditions
+	// preconditions (lets that do not mention results are bound first)
 	env := f.funcEnv(st, st)
+	preLets := map[string]*Val{}
 	if fc != nil {
+		for _, l := range fc.Lets {
+			if letUsesResults(l, fc) {
+				continue
+			}
+			if err := env.bindLet(l); err != nil {
+				u.Err = fmt.Sprintf("let %q: %v", l.Text, err)
+				return u
+			}
+			for _, n := range l.Names {
+				if v, ok := env.vars[n]; ok {
+					preLets[n] = v
+				}
+			}
+		}
 		for _, r := range fc.Requires {
 			g, err := env.evalBool(r.E)
 			if err != nil {
@@ -144,27 +162,16 @@ func (p *Program) verifyFunc(key string, mode string) (u *Unit) {
 				post.vars[fc.Results[i]] = r
 			}
 		}
-		pre := f.funcEnv(st, st)
+		for n, v := range preLets {
+			post.vars[n] = v
+		}
 		for _, l := range fc.Lets {
-			usesResult := false
-			for _, rn := range fc.Results {
-				if exprMentions(l.E, rn) {
-					usesResult = true
-				}
+			if !letUsesResults(l, fc) {
+				continue
 			}
-			target := pre
-			if usesResult {
-				target = post
-			}
-			if err := target.bindLet(l); err != nil {
+			if err := post.bindLet(l); err != nil {
 				u.Err = fmt.Sprintf("let %q: %v", l.Text, err)
 				return u
-			}
-			for _, n := range l.Names {
-				if v, ok := target.vars[n]; ok {
-					post.vars[n] = v
-					pre.vars[n] = v
-				}
 			}
 		}
 		ens := fc.Ensures
@@ -198,6 +205,26 @@ func relPath(p *Program, path string) string {
 	path = strings.TrimPrefix(path, p.RepoDir+"/")
 	path = strings.TrimPrefix(path, p.VerifDir+"/")
 	return path
+}
+
+// letUsesResults: a let that mentions a result (directly or through an earlier
+// such let) is evaluated in the post-state, all others in the pre-state.
+func letUsesResults(l *Let, fc *FuncContract) bool {
+	names := append([]string{}, fc.Results...)
+	for _, prev := range fc.Lets {
+		if prev == l {
+			break
+		}
+		if letUsesResults(prev, fc) {
+			names = append(names, prev.Names...)
+		}
+	}
+	for _, n := range names {
+		if exprMentions(l.E, n) {
+			return true
+		}
+	}
+	return false
 }
 
 func exprMentions(e *Expr, name string) bool {
@@ -315,6 +342,12 @@ func (env *Env) instantiate(key string, fc *FuncContract, fn *ssa.Function, sig 
 	e.usedContracts[key] = true
 	n := &Env{enc: e, vars: vars, st: env.st, old: env.st, res: e.prog.resolver(fc.PkgPath, e.importsFor(fc)), fc: fc, ghost: true, depth: env.depth + 1, bound: env.bound}
 	var reqs []string
+	for _, l := range fc.Lets {
+		if err := n.bindLet(l); err != nil {
+			e.errorf("instantiating %s: let: %v", key, err)
+			return
+		}
+	}
 	for _, r := range fc.Requires {
 		g, err := n.evalBool(r.E)
 		if err != nil {
@@ -322,12 +355,6 @@ func (env *Env) instantiate(key string, fc *FuncContract, fn *ssa.Function, sig 
 			return
 		}
 		reqs = append(reqs, g)
-	}
-	for _, l := range fc.Lets {
-		if err := n.bindLet(l); err != nil {
-			e.errorf("instantiating %s: let: %v", key, err)
-			return
-		}
 	}
 	for _, en := range fc.Ensures {
 		g, err := n.evalBool(en.E)
